@@ -19,6 +19,33 @@ struct timeval current_time;
 double current_dtime;
 time_t squid_curtime = 0;
 
+#if SQUID_VERIF_HOOKS
+#include <fcntl.h>
+#include <sys/mman.h>
+#include <unistd.h>
+/// verification hook: a signed offset (seconds) read from the 8-byte file named by
+/// $SQUID_VERIF_CLOCK, so that a test driver can move Squid's clock without sleeping
+static int64_t
+VerifClockOffset()
+{
+    static const volatile int64_t *shared = nullptr;
+    static bool tried = false;
+    if (!tried) {
+        tried = true;
+        if (const auto path = getenv("SQUID_VERIF_CLOCK")) {
+            const auto fd = open(path, O_RDONLY);
+            if (fd >= 0) {
+                const auto mem = mmap(nullptr, sizeof(int64_t), PROT_READ, MAP_SHARED, fd, 0);
+                if (mem != MAP_FAILED)
+                    shared = static_cast<const volatile int64_t *>(mem);
+                close(fd);
+            }
+        }
+    }
+    return shared ? *shared : 0;
+}
+#endif
+
 time_t
 getCurrentTime()
 {
@@ -26,6 +53,9 @@ getCurrentTime()
     const auto now = system_clock::now().time_since_epoch();
 
     current_time.tv_sec = duration_cast<seconds>(now).count();
+#if SQUID_VERIF_HOOKS
+    current_time.tv_sec += VerifClockOffset();
+#endif
     current_time.tv_usec = duration_cast<microseconds>(now).count() % 1000000;
 
     current_dtime = (double) current_time.tv_sec +
